@@ -211,7 +211,7 @@ P("C13", module="AJ.Props.C13All", extra=[("AJ.Props.C13", ["C13"]), ("AJ.Props.
 P("C15", module="AJ.Props.C15All", extra=[("AJ.Props.C15", ["C15"]), ("AJ.Props.C01Doc", ["C15"])], level_text="Theorems for JSON (filtered and unfiltered) and MessagePack, any bytes, any limit: Ok implies nesting <= L; L+1 opening brackets/headers give TooDeep after exactly "
   "L+1 bytes, also inside discarded parts; raising the limit changes nothing unless the result was TooDeep (never otherwise). Stack use is compared between inputs of depth L+1 and 2000.",
   level_note="stack bytes are observed on the binary; 'as soon as' for nested objects is covered by the correspondence",
-  suites=lambda tier: [S.DepthSuite(cfg=DEF)])
+  suites=lambda tier: [S.DepthSuite(cfg=DEF), S.DepthSuite(cfg=CFG_ALL)])
 
 P("C16", module="AJ.Props.C16All", extra=[("AJ.Props.C01", ["C16"]), ("AJ.Props.C16", ["C16"]), ("AJ.Props.C16Seq", ["C16"])],
   level_text="Theorems: deserializeJson consumes the leading white space and exactly the bytes of the top-level value, plus one byte when it is a number and something follows "
@@ -238,7 +238,7 @@ P("C18", level_text="Theorems for all values: != is the negation of ==, <= is < 
   "combinations, otherwise as doubles, NaN never equal; strings/raw equal iff bytes identical; arrays element-wise; objects member-wise regardless of order; null only null. "
   "All pairs over a pool of ~150 values x both orders and variant-vs-scalar forms are executed on the library; laws and values are judged on its answers.",
   level_note="known finding: == is asymmetric for objects with repeated keys (reachable through MessagePack)",
-  suites=lambda tier: [S.CmpSuite(cfg=DEF)])
+  suites=lambda tier: [S.CmpSuite(cfg=DEF), S.CmpSuite(cfg={"USE_DOUBLE": 0})])
 
 P("C04", module="AJ.Props.C04All", extra=[("AJ.Props.C04", ["C04"]), ("AJ.Props.C04Hist", ["C04"]), ("AJ.Props.C04Rem", ["C04"]), ("AJ.Props.C04Copy", ["C04"]), ("AJ.Props.C14Hist", ["C04"])],
   level_text="Theorems about the slot-level document model (total definitions over pools, free list, next-linked chains with head/tail, extension slots, "
@@ -312,7 +312,7 @@ P("C19", module="AJ.Props.C19All", extra=[("AJ.Props.C19", ["C19"]), ("AJ.Props.
   "on the implementation: strings, raw values and keys of exactly the longest storable length and one byte more (1-byte and 2-byte lengths) must succeed / fail cleanly (false, overflowed, "
   "nothing stored, usable again after clear)",
   suites=lambda tier: [S.HistSuite(cfg=G["id1c10"], nh=30 if tier == "quick" else 1500), S.HistSuite(cfg=G["id1i3"], nh=30 if tier == "quick" else 1500), S.HistSuite(cfg=G["len1"], nh=25 if tier == "quick" else 1500),
-                       S.LimitSuite(cfg=G["id1c10"]), S.LimitSuite(cfg=G["tiny1"]), S.LimitSuite(cfg=G["id1i3"]), S.LimitSuite(cfg=G["len1"])] +
+                       S.LimitSuite(cfg=G["id1c10"]), S.LimitSuite(cfg=G["tiny1"]), S.LimitSuite(cfg=G["id1i3"]), S.LimitSuite(cfg=G["len1"]), S.LimitSuite(cfg=G["id1c128"])] +
   ([S.HistSuite(cfg=G[g], nh=1500) for g in ("tiny2", "len4", "id1")] if tier == "thorough" else []))
 
 P("C20", level_text="Theorems: (1) the inventory of every object with static storage duration defined by ArduinoJson code — regenerated on every run from the object code of a "
